@@ -495,12 +495,13 @@ func runPush(t *testing.T, tape *Tape, w *World, variant string, steps int, out 
 						blocked++
 						continue
 					}
-					// also keep different classes from being released back to back
+					// (neither the select rewrite nor the queue-length hook fits this tree: the
+					// outcome path has been restructured, there are no three queues to keep
+					// apart, and outcomes of different classes may complete back to back. A
+					// violation found this way is still replayed in a fresh process before it
+					// is reported.)
 					if actions.VerifPushQueueLens == nil {
-						if cls != 0 {
-							blocked++
-							continue
-						}
+						r.Stats["http_outcome_path_restructured"]++
 					}
 				}
 				allowed = append(allowed, k)
